@@ -2,7 +2,7 @@
    Only the directives of ExtrOcamlBasic are used (bool, option, unit, list, prod, sumbool, sumor);
    N, Z, positive and nat stay the extracted inductive datatypes. *)
 From Coq Require Import ExtrOcamlBasic.
-From EDP Require Import Base.Bytes Dist.Fragment Dist.PidAlloc Dist.Framing Term.Term Order.Cmp Order.HashStream Codec.Encode Codec.Decode Gen.DecoderArms Dist.Control Gen.ControlTable Dist.Md5 Dist.Handshake Codec.DistHeader Elixir.Range Elixir.Wrap Serde.Serde Dist.Receive Dist.Send Node.Node Codec.AtomCache Dist.Connect Node.GenServer.
+From EDP Require Import Base.Bytes Dist.Fragment Dist.PidAlloc Dist.Framing Term.Term Order.Cmp Order.HashStream Codec.Encode Codec.Decode Gen.DecoderArms Dist.Control Gen.ControlTable Dist.Md5 Dist.Handshake Codec.DistHeader Elixir.Range Elixir.Wrap Serde.Serde Dist.Receive Dist.Send Node.Node Codec.AtomCache Dist.Connect Node.GenServer Node.GenEvent.
 Extraction Blacklist String List Nat.
 Extraction "model.ml" Fragment.run Fragment.fev N.of_nat N.to_nat N.add N.mul
   PidAlloc.allocate PidAlloc.make_ref
@@ -20,4 +20,5 @@ Extraction "model.ml" Fragment.run Fragment.fev N.of_nat N.to_nat N.add N.mul
   Node.step Node.node_init
   AtomCache.sender_header AtomCache.meant AtomCache.push
   Connect.connect
-  GenServer.demo_run.
+  GenServer.demo_run
+  GenEvent.demo_estep GenEvent.demo_add GenEvent.demo_einit.
